@@ -28,6 +28,7 @@ def honest_proofs(ck, binary, rows, tag):
     cases_path = os.path.join(wd(), "%s-cases-%d.ndjson" % (tag, os.getpid()))
     vf.write_ndjson(cases_path, [r["case"] for r in rows])
     rc, out, err = vf.run_harness(binary, ["gen", cases_path], timeout=900)
+    os.unlink(cases_path)
     if rc != 0:
         raise vf.ToolError("harness gen failed rc=%d: %s" % (rc, err[-2000:]))
     res = [json.loads(l) for l in out.splitlines() if l.strip()]
@@ -155,6 +156,13 @@ def _run_slice(binary, proofs_path, tasks, tag, timeout_s, as_mib, results, max_
     results[tag] = (out, restarts)
 
 
+def _guarded_slice(binary, proofs_path, tasks, tag, timeout_s, as_mib, results, max_restarts):
+    try:
+        _run_slice(binary, proofs_path, tasks, tag, timeout_s, as_mib, results, max_restarts)
+    except Exception as e:          # re-raised by run_workers in the main thread
+        results[tag] = e
+
+
 def run_workers(binary, proofs_path, tasks, tag, par=4, timeout_s=10, as_mib=4096, max_restarts=4000):
     """Runs the tasks in `par` isolated worker processes (contiguous slices).  Returns a list of result
     records aligned with `tasks`; a task that killed its worker gets {"crash": ..} / {"timeout": True}."""
@@ -167,8 +175,8 @@ def run_workers(binary, proofs_path, tasks, tag, par=4, timeout_s=10, as_mib=409
     threads = []
     for j in range(par):
         sl = tasks[j * size:(j + 1) * size]
-        t = threading.Thread(target=_run_slice, args=(binary, proofs_path, sl, "%s-%d-%d" % (tag, os.getpid(), j),
-                                                      timeout_s, as_mib, results, max_restarts))
+        t = threading.Thread(target=_guarded_slice, args=(binary, proofs_path, sl, "%s-%d-%d" % (tag, os.getpid(), j),
+                                                          timeout_s, as_mib, results, max_restarts))
         t.start()
         threads.append((t, j, len(sl)))
     for t, _, _ in threads:
@@ -179,6 +187,8 @@ def run_workers(binary, proofs_path, tasks, tag, par=4, timeout_s=10, as_mib=409
         key = "%s-%d-%d" % (tag, os.getpid(), j)
         if key not in results:
             raise vf.ToolError("worker slice %d of %s failed" % (j, tag))
+        if isinstance(results[key], Exception):
+            raise vf.ToolError("worker slice %d of %s: %s" % (j, tag, results[key]))
         res, rs = results[key]
         restarts += rs
         for i in range(ln):
@@ -205,3 +215,50 @@ def msg_of(detail):
     m = re.match(r"^\S+?:\d+: (.*)$", detail or "", re.S)
     s = m.group(1) if m else (detail or "")
     return re.sub(r"\d+", "N", s)[:100]
+
+
+def validate_outcomes(ck, events, mode, name):
+    """TraceWire.tla decides which recorded outcomes the property allows.  Returns the sorted indices
+    (into events) of the rejected events."""
+    if not events:
+        return []
+    path = os.path.join(wd(), "trace-%s-%d.ndjson" % (name, os.getpid()))
+    vf.write_ndjson(path, events)
+    r = vf.tlc("TraceWire.tla", "TraceWire_%s.cfg" % mode, cwd=SPECDIR, workers=1, timeout=1500,
+               env={"TRACE": path}, deque=True, heap="4g")
+    os.unlink(path)
+    rej = [int(m.group(1)) - 1 for m in (re.match(r'^<<"REJECTED_EVENT", (\d+)>>', ln) for ln in r.prints) if m]
+    consumed = [int(m.group(1)) for m in (re.match(r'^<<"CONSUMED", (\d+)>>', ln) for ln in r.prints) if m]
+    if not consumed or consumed[0] != len(events):
+        raise vf.ToolError("TraceWire did not consume the whole trace %s: %s" % (name, (r.error or r.raw[-1500:])))
+    ck.add_tlc("validate:" + name, r)
+    return sorted(set(rej))
+
+
+def classify(res):
+    """(de, ve dict) outcome classes of a worker result record."""
+    if res.get("timeout"):
+        return "timeout", {}
+    if res.get("crash"):
+        return "crash", {}
+    de = res.get("de", ["?", ""])[0]
+    ve = {k: v[0] for k, v in (res.get("ve") or {}).items()}
+    return de, ve
+
+
+def fnv(b):
+    h = 0x811c9dc5
+    for x in b:
+        h = ((h ^ x) * 0x01000193) & 0xffffffff
+    return h
+
+
+def check_inputs(muts, results, honest_bytes):
+    """Cross-checks that the worker tested exactly the bytes the edits denote (independent twin)."""
+    for m, r in zip(muts, results):
+        if "fnv" not in r:
+            continue          # the worker died on this input before reporting
+        b = apply_edits(honest_bytes[m["c"]], m["e"])
+        if len(b) != r["len"] or fnv(b) != r["fnv"]:
+            raise vf.ToolError("worker and supervisor disagree on the mutated bytes of %s/%s (case %d)"
+                               % (m["cls"], m["fld"], m["c"]))
